@@ -69,7 +69,7 @@ def exec_program(sess, prog, order):
     return regs
 
 
-def run_program(h, prog, warm, rng_seed, order=None, warm_prog=None):
+def run_program(h, prog, warm, rng_seed, order=None, warm_prog=None, obs_reversed=False):
     """execute in a fresh process after a warm-up; returns the list of observations per step + pair matrices"""
     import random
     sess = markers.Session(h)
@@ -89,18 +89,17 @@ def run_program(h, prog, warm, rng_seed, order=None, warm_prog=None):
     if warm_prog:
         exec_program(sess, warm_prog, None)
     regs = exec_program(sess, prog, order)
-    obs = []
-    for i in range(len(prog)):
+    obs = [None] * len(prog)
+    for i in (reversed(range(len(prog))) if obs_reversed else range(len(prog))):
         r = regs.get(i)
         if r is None:
-            obs.append(None)
             continue
         d = sess.dumps[r]
         disp = sess.ask(['display', str(r)])
         dnf = sess.ask(['dnf', str(r)])
         fl = sess.ask(['flags', str(r)])
         ev = [dump(c02.eval_all(sess, r, e, ['a'])[1:]) for e in ENVS]       # values of all entry points and the warnings each reports
-        obs.append({'dump': dump(d), 'display': dump(disp), 'dnf': dump(dnf), 'flags': dump(fl), 'eval': ev})
+        obs[i] = {'dump': dump(d), 'display': dump(disp), 'dnf': dump(dnf), 'flags': dump(fl), 'eval': ev}
     n = len(prog)
     rel = {}
     rng = random.Random(rng_seed)
@@ -188,6 +187,14 @@ def fixed_program3():
             ('or', 2, 3), ('parse', "'x86' in platform.machine and python_implementation != 'PyPy'"), ('not', 6), ('and', 4, 6), ('parse', "platform.version >= '#1'")]
 
 
+def fixed_program4():
+    """markers and markers built over them (a disjunction and two markers that contain it as a subtree): rendering one must not depend on
+    whether a part of it was rendered before"""
+    return [('parse', "extra == 'b' or extra == 'c'"), ('parse', "extra == 'c' or (extra == 'a' and extra == 'b')"),
+            ('parse', "(sys_platform == 'linux' and (extra == 'b' or extra == 'c')) or (sys_platform != 'linux' and extra == 'c')"), ('parse', "os_name == 'posix' or python_version >= '3.8'"),
+            ('parse', "extra == 'x' and (os_name == 'posix' or python_version >= '3.8')"), ('and', 0, 3), ('or', 1, 4), ('not', 2), ('simpx', 2, [S('b')])]
+
+
 # texts the parser rejects, most of them inside an open parenthesis: per-thread / per-process parser state must be left as it was found
 REJECTED_WARMUP = [t % i for i in range(40) for t in ("(extra == 'a%d' or os_name == 'x'", "(os_name = 'x%d')", "((python_version >= '3.%d'", "(os_name == 'a%d' and (extra == 'b' or", "os_name == 'x%d' and")]
 DEPRECATED_WARMUP = ["os.name == 'posix'", "'posix' == os.name", "sys.platform != 'win32'", "'x86' in platform.machine", "python_implementation != 'PyPy'", "platform.version >= '#1'",
@@ -269,7 +276,7 @@ def run(ctx):
     # ---- (1) cross-history, fresh processes
     n_prog = 12 if quick else 60
     for p in range(n_prog):
-        prog = fixed_program() if p == 0 else fixed_program2() if p == 1 else fixed_program3() if p == 2 else (gen_program(ctx.rng, ctx.rng.randint(12, 25)) if p % 3 else family_program(ctx.rng))
+        prog = fixed_program() if p == 0 else fixed_program2() if p == 1 else fixed_program3() if p == 2 else fixed_program4() if p == 3 else (gen_program(ctx.rng, ctx.rng.randint(12, 25)) if p % 3 else family_program(ctx.rng))
         base, rel0 = run_program(h, prog, [], 7)
         ctx.evaluations += 1
         ctx.nontrivial(('prog', tuple(str(s) for s in prog)))
@@ -284,8 +291,11 @@ def run(ctx):
         variants.append(('after 200 rejected marker texts', list(REJECTED_WARMUP), None))
         variants.append(('after the deprecated-key comparisons were parsed and evaluated alone', list(DEPRECATED_WARMUP), None))
         variants.append(('the same program with simplify_extras for other extras first', 'extras', None))
+        variants.append(('observed in reverse order (the last result rendered and evaluated first)', 'obs-reversed', None))
         for name, warm, order in variants:
-            if warm in ('respell', 'alias', 'extras'):
+            if warm == 'obs-reversed':
+                obs, rel = run_program(h, prog, [], 7, None, obs_reversed=True)
+            elif warm in ('respell', 'alias', 'extras'):
                 wp = {'respell': respell, 'alias': alias_program, 'extras': other_extras_program}[warm](prog)
                 obs, rel = run_program(h, prog, [], 7, None, warm_prog=wp)
             else:
